@@ -239,6 +239,18 @@ def cases(tier):
                 for o2 in (OUTCOMES if (n == 2 and o1 == "ok") else ("ok",)):
                     for mf in ((None, 1) if kind == "optimizer" else (None,)):
                         yield "%s/requests=%d/%s,%s/max_functions=%s" % (kind, n, o1, o2, mf), {"kind": kind, "n": n, "outcomes": [o1, o2], "mf": mf}
+    if tier == "thorough":
+        # three requests: the third evaluation ends in every way; a failing second evaluation stops the run before the third
+        for mf in (None, 1, 2, 3):
+            for o3 in OUTCOMES:
+                yield "optimizer/requests=3/ok,ok,%s/max_functions=%s" % (o3, mf), {"kind": "optimizer", "n": 3, "outcomes": ["ok", "ok", o3], "mf": mf}
+            for o2 in OUTCOMES[1:]:
+                yield "optimizer/requests=3/ok,%s,ok/max_functions=%s" % (o2, mf), {"kind": "optimizer", "n": 3, "outcomes": ["ok", o2, "ok"], "mf": mf}
+        for mf in (None, 3, 5, 6):
+            for o3 in ("ok", "too-few", "filter-abort"):
+                yield "optimizer/batch=3/requests=3/ok,ok,%s/max_functions=%s" % (o3, mf), {"kind": "optimizer", "n": 3, "outcomes": ["ok", "ok", o3], "mf": mf, "batch": 3}
+        for na in (None, 0, 1, 2):
+            yield "optimizer/nested/requests=3/inner-abort-at=%s" % na, {"kind": "optimizer", "n": 3, "outcomes": ["ok", "ok", "ok"], "mf": None, "nested": True, "nested_abort": na}
     # evaluator step on a batch of vectors: too few realizations for ANY vector must be reported
     for vec in (("ok", "ok"), ("ok", "too-few"), ("too-few", "ok"), ("too-few", "too-few")):
         yield "evaluator/vectors=%s" % ",".join(vec), {"kind": "evaluator", "n": 1, "outcomes": [list(vec), "ok"], "mf": None, "vectors": 2}
@@ -260,9 +272,10 @@ def run_case(T, case, clauses):
     from ropt.exceptions import OptimizationAborted, PlanAborted
 
     kind = case["kind"]
-    # which receiver aborts, and at which emitted event (index 8 = never reached -> no abort)
+    # which receiver aborts, and at which emitted event
     who = ("handler1", "observer1", "observer2")[T.choose(3)]
-    abort_at = T.choose(8)
+    # emitted events: start/finish of the step and of each evaluation; one more choice stands for "never"
+    abort_at = T.choose(2 * (case["n"] if kind == "optimizer" else 1) + 3)
     grad = bool(T.choose(2)) if kind == "optimizer" else False
     batch = case.get("batch")
     plan, step_id, log, env, step = build(T, kind, case["outcomes"], case["n"], case["mf"], who, abort_at, with_gradient=grad, batch=batch)
